@@ -1050,6 +1050,17 @@ pub fn unit_sizes() -> Report {
             }
         }
     } } }
+    // ids of every length 1..=8 x size fields of every width 1..=8 (headers of 2..16 bytes, the longest against the 16-byte
+    // look-ahead), at the root and inside an unknown-size Root: capacity / chunking independence, masks, limits (check_input, deep)
+    for idl in 1..=8usize { for w in 1..=8usize { for pre in [vec![], vec![bs::ROOT as u8, 0xFF]] {
+        let mut input = pre.clone();
+        input.push((1u8 << (8 - idl)) | 0x01);
+        for k in 1..idl { input.push(0x20 + k as u8); }
+        input.extend(sizef(2, w));
+        input.extend_from_slice(&[0xAA, 0xBB]);
+        input.extend_from_slice(&[bs::UINT as u8, 0x81, 0x01]);
+        check_input(&table, &input, &mut rep, false, true);
+    } } }
     rep
 }
 
